@@ -265,7 +265,9 @@ func (c *Ctx) Finish() int {
 	if len(c.broken) > 0 {
 		ev["broken"] = c.broken
 	}
-	if c.Replay == "" {
+	// evidence is only written by runs against /repo itself (never by replays or by
+	// development runs against a scratch tree, VERIF_REPO)
+	if c.Replay == "" && os.Getenv("VERIF_REPO") == "" {
 		b, _ := json.MarshalIndent(ev, "", " ")
 		_ = os.MkdirAll(filepath.Join(c.VerifDir, "evidence"), 0o755)
 		if err := os.WriteFile(filepath.Join(c.VerifDir, "evidence", c.ID+".json"), b, 0o644); err != nil {
